@@ -44,10 +44,10 @@ Section Call.
   Hypothesis (Hspan : call_span < nsamps).
 
   Lemma call_delays_eq c : call_delays nch raw c = raw c - call_shift.
-  Proof. unfold call_delays, call_shift. apply Hlaw. exact Hmin0. Qed.
+  Proof. unfold call_delays, fold_chan_delays, fold_dmin, call_shift. apply Hlaw. exact Hmin0. Qed.
 
   Lemma call_md_eq : call_md nch raw = call_span.
-  Proof. unfold call_md, call_span. rewrite <- vmax_shift. apply vmax_ext. intros c _. apply call_delays_eq. Qed.
+  Proof. unfold call_md, fold_max_delay, call_span. rewrite <- vmax_shift. apply vmax_ext. intros c _. apply call_delays_eq. Qed.
 
   Lemma call_delays_range c : 0 <= c < nch -> 0 <= call_delays nch raw c <= call_md nch raw.
   Proof. intro H. rewrite call_md_eq, call_delays_eq. unfold call_span.
